@@ -4,6 +4,7 @@
 package vp
 
 import (
+	"bytes"
 	"context"
 	"crypto/ecdsa"
 	"crypto/elliptic"
@@ -416,6 +417,23 @@ func (im *Impl) Do(c Cmd) Res {
 			return Res{Err: err.Error(), N: n}
 		}
 		return Res{OK: true, N: n}
+	case "records":
+		// c.N numbered 16-byte records ("%015d\n", counting from c.Seed) on the process stdout ("out") or stderr
+		w := os.Stdout
+		if c.S == "err" {
+			w = os.Stderr
+		}
+		var buf bytes.Buffer
+		for i := 0; i < c.N; i++ {
+			fmt.Fprintf(&buf, "%015d\n", c.Seed+i)
+			if buf.Len() >= 1<<16 || i == c.N-1 {
+				if _, err := w.Write(buf.Bytes()); err != nil {
+					return Res{Err: err.Error(), N: i}
+				}
+				buf.Reset()
+			}
+		}
+		return Res{OK: true, N: c.N}
 	case "env":
 		return Res{OK: true, L: os.Environ()}
 	case "crash":
